@@ -61,11 +61,85 @@ static int phrase_traces (const unsigned char *hay, size_t hl, const unsigned ch
   return hit;
 }
 
+/* ---------- stack clause (C09): windowed scan of the stack region the call used ----------
+   Before the call, every 8-byte window of the passphrase in every encoding the algorithms use (raw, UCS-2LE, c << 1,
+   c ^ 0x36, c ^ 0x5c, byte-swapped 32-bit words at the four alignments, byte-swapped 64-bit words at the eight
+   alignments) goes into a hash set on the heap; low-entropy windows (fewer than 5 distinct bytes) are skipped.  The
+   region below this frame is then poisoned, the call runs, and the same region is searched for any member of the set:
+   a partial copy (a suffix of the HMAC pad, a single message block) is found as well as a complete one.
+   Only meaningful for a library built at -O0 (the property's clause); enabled by XC_STACKSCAN=1.  */
 #define STACK_PROBE (192 * 1024)
+#define WSET (1u << 16)
+static __thread uint64_t *wset_v; static __thread unsigned char *wset_enc; static __thread unsigned wset_n;
+static void wset_add (const unsigned char *w, unsigned enc)
+{
+  int seen[256] = {0}, distinct = 0;
+  for (int i = 0; i < 8; i++) if (!seen[w[i]]++) distinct++;
+  if (distinct < 5 || wset_n > WSET / 2) return;
+  uint64_t v; memcpy (&v, w, 8); if (v == 0) return;
+  unsigned h = (unsigned)((v * 0x9e3779b97f4a7c15ULL) >> 48) & (WSET - 1);
+  while (wset_v[h] && wset_v[h] != v) h = (h + 1) & (WSET - 1);
+  if (!wset_v[h]) { wset_v[h] = v; wset_enc[h] = (unsigned char)enc; wset_n++; }
+}
+static void wset_seq (const unsigned char *t, size_t l, unsigned enc)
+{ for (size_t i = 0; i + 8 <= l; i++) wset_add (t + i, enc); }
+static void wset_build (const unsigned char *ph, size_t pl)
+{
+  if (!wset_v) { wset_v = malloc (WSET * sizeof *wset_v); wset_enc = malloc (WSET); }
+  memset (wset_v, 0, WSET * sizeof *wset_v); wset_n = 0;
+  if (pl < 8) return;
+  unsigned char *t = malloc (2 * pl + 16);
+  wset_seq (ph, pl, 1);
+  for (size_t i = 0; i < pl; i++) { t[2*i] = ph[i]; t[2*i+1] = 0; }
+  wset_seq (t, 2 * pl, 2);
+  for (size_t i = 0; i < pl; i++) t[i] = (unsigned char)(ph[i] << 1);
+  wset_seq (t, pl, 3);
+  for (size_t i = 0; i < pl; i++) t[i] = ph[i] ^ 0x36;
+  wset_seq (t, pl, 4);
+  for (size_t i = 0; i < pl; i++) t[i] = ph[i] ^ 0x5c;
+  wset_seq (t, pl, 5);
+  for (size_t a = 0; a < 4; a++)
+    { size_t l = 0; for (size_t i = a; i + 4 <= pl; i += 4) { t[l++] = ph[i+3]; t[l++] = ph[i+2]; t[l++] = ph[i+1]; t[l++] = ph[i]; } wset_seq (t, l, 6); }
+  for (size_t a = 0; a < 8; a++)
+    { size_t l = 0; for (size_t i = a; i + 8 <= pl; i += 8) for (int k = 7; k >= 0; k--) t[l++] = ph[i + (size_t)k]; wset_seq (t, l, 7); }
+  explicit_bzero (t, 2 * pl + 16); free (t);
+}
+static __attribute__((noinline)) int wset_lookup (uint64_t v)
+{
+  unsigned h = (unsigned)((v * 0x9e3779b97f4a7c15ULL) >> 48) & (WSET - 1);
+  while (wset_v[h]) { if (wset_v[h] == v) return wset_enc[h]; h = (h + 1) & (WSET - 1); }
+  return 0;
+}
 static __attribute__((noinline)) void stack_poison (void)
 { volatile unsigned char *p = alloca (STACK_PROBE); for (size_t i = 0; i < STACK_PROBE; i++) p[i] = 0xEE; }
-static __attribute__((noinline)) int stack_scan (const unsigned char *ph, size_t pl)
-{ unsigned char *p = alloca (STACK_PROBE); __asm__ volatile ("" : : "r"(p) : "memory"); return phrase_traces (p, STACK_PROBE, ph, pl); }
+/* returns a mask of the encodings found (bit enc-1) and the depth of the first hit below this frame */
+static __thread long stk_depth;
+static __attribute__((noinline)) int stack_scan (void)
+{
+  unsigned char *p = alloca (STACK_PROBE); __asm__ volatile ("" : : "r"(p) : "memory");
+  int mask = 0; stk_depth = -1;
+  if (!wset_n) return 0;
+  for (size_t i = 0; i + 8 <= STACK_PROBE; i++)
+    {
+      uint64_t v; memcpy (&v, p + i, 8);
+      if (v == 0 || v == 0xEEEEEEEEEEEEEEEEULL) continue;
+      int e = wset_lookup (v);
+      if (e)
+        {
+          mask |= 1 << (e - 1);
+          if (stk_depth < 0)
+            {
+              stk_depth = (long)(STACK_PROBE - i);
+              if (getenv ("XC_STACKDUMP"))
+                { size_t a = i >= 64 ? i - 64 : 0, b = i + 96 <= STACK_PROBE ? i + 96 : STACK_PROBE;
+                  fprintf (stderr, "stack hit enc=%d depth=%ld addr=%p:", e, stk_depth, (void *)(p + i));
+                  for (size_t k = a; k < b; k++) fprintf (stderr, "%s%02x", k == i ? " [" : k == i + 8 ? "] " : (k % 8 == 0 ? " " : ""), p[k]);
+                  fprintf (stderr, "\n"); }
+            }
+        }
+    }
+  return mask;
+}
 
 static int scratch_zero (const struct crypt_data *d)
 {
@@ -94,13 +168,13 @@ static void op_crypt (int n, char **tok)
   if (!snap) snap = malloc (sizeof *snap);
   if (d) memcpy (snap, d, sizeof *snap);
   char *ret = NULL; int e = 0, aborted = 0;
-  static int stackscan = -1;
+  static int stackscan = -1; volatile int stk_mask = 0;
   if (stackscan < 0) stackscan = getenv ("XC_STACKSCAN") != NULL;
-  if (stackscan) stack_poison ();
+  if (stackscan) { wset_build ((unsigned char *)phrase, phrase ? plen : 0); stack_poison (); }
   jmp_buf jb; abort_jmp = &jb;
   if (!setjmp (jb))
     {
-      in_call = 1; errno = 0;
+      in_call = 1; errno = ENTRY_ERRNO;
       if (!strcmp (entry, "r")) ret = crypt_r (phrase, setting, d);
       else if (!strcmp (entry, "rn")) ret = crypt_rn (phrase, setting, d, (int)size);
       else if (is_st) ret = crypt (phrase, setting);
@@ -108,7 +182,9 @@ static void op_crypt (int n, char **tok)
         {
           ret = crypt_ra (phrase, setting, &objs[id].ra_data, &objs[id].ra_size);
         }
-      e = errno; in_call = 0;
+      e = errno; last_errno = e; in_call = 0;
+      /* scan at once: nothing else may run on this part of the stack between the return and the scan */
+      if (stackscan && phrase) stk_mask = stack_scan ();
     }
   else { in_call = 0; aborted = 1; }
   if (!strcmp (entry, "ra")) { d = objs[id].ra_data; memset (snap, 0, sizeof *snap); }
@@ -128,7 +204,7 @@ static void op_crypt (int n, char **tok)
       int tr = phrase_traces ((unsigned char *)d->output, sizeof d->output, (unsigned char *)phrase, plen)
              | phrase_traces ((unsigned char *)d->reserved, sizeof (struct crypt_data) - offsetof (struct crypt_data, reserved), (unsigned char *)phrase, plen);
       printf (" ph=%d", tr);
-      if (stackscan) printf (" stk=%d", stack_scan ((unsigned char *)phrase, plen));
+      if (stackscan) printf (" stk=%d stkdepth=%ld", stk_mask, stk_depth);
     }
   if (crypt_suffix) crypt_suffix ();
   printf ("\n");
